@@ -1,4 +1,5 @@
 import Ebv.Lemmas.CondProg
+import Ebv.Lemmas.CondSurface
 /-! # C03 — conditional blocks run exactly the branch the condition selects
 
 Model: `Ebv.Gen` + `Ebv.Model.GenCond` (comparisons, `with`/`Else`, placeholders patched by index, the
@@ -69,6 +70,13 @@ theorem C03_partial (p : CProg) (code : List Insn) (hok : progOkC p = true) (hem
     obtain ⟨σ', hrun, hsem⟩ := C03_core p k code hk hok.1 hemit σ
     exact ⟨k, hk, σ', hrun, sem_semZ k _ σ σ' hok.2 hsem⟩
   · cases hok
+
+/-- **surface level of conditions**: under the decidable side conditions `SCond.surfOk` (no computed addresses, not
+*sum-minus*), the truth value `CObj.truth` that `C03_partial` speaks about — that of the comparison object the
+operator overloads built — is the truth value of the condition as written (`SCond.truthZ`: Python integers) -/
+theorem C03_surface_truth (p : CProg) (c : SCond) (co : CObj) (σ : State) (hok : c.surfOk (layout p.vars) = true)
+    (h : elabC (layout p.vars) c = .ok co) : co.truth σ = c.truthZ (layout p.vars) σ :=
+  elabC_truth (layout p.vars) σ c co hok h
 
 /-! ## the full-strength statement and its refutation -/
 
